@@ -106,7 +106,8 @@ func (e *Engine) backgroundAxioms(ts []*Term, mode Mode, typed []*Term) []*Term 
 	for _, n := range subNames {
 		r := Var("$b_rsub", I)
 		app := App(n, I, r)
-		out = append(out, Forall([]*Term{r}, Eq(App(n+"_inv", I, app), r), app))
+		// ... and a sub-object of a non-nil object is not at address nil
+		out = append(out, Forall([]*Term{r}, And(Eq(App(n+"_inv", I, app), r), Implies(Not(Eq(r, ConstI(I, 0))), Not(Eq(app, ConstI(I, 0))))), app))
 	}
 	// symbolic products: linear facts about multiplication, instantiated on the ground applications
 	if ms := seenApp["umul"]; len(ms) > 0 {
@@ -217,7 +218,9 @@ func (e *Engine) buildSMT(ob *Obligation) string {
 		asserts = append(asserts, a)
 	}
 	goal := Not(ob.Goal)
-	asserts = relevant(asserts, goal)
+	if !ob.Cover {
+		asserts = relevant(asserts, goal)
+	}
 	all := append(append([]*Term{}, asserts...), goal)
 	// lemma instances (hints) are not roots for unfolding: their spec-function applications
 	// are unfolded only if they also occur in the rest of the query
@@ -345,7 +348,15 @@ func (p *dagPrinter) print(t *Term) string {
 		}
 		sb.WriteString(p.print(t.Args[0]))
 		for _, pt := range pats {
-			sb.WriteString(" :pattern (" + p.print(pt) + ")")
+			if pt.Op == "mpat" {
+				var qs []string
+				for _, q := range pt.Args {
+					qs = append(qs, p.print(q))
+				}
+				sb.WriteString(" :pattern (" + strings.Join(qs, " ") + ")")
+			} else {
+				sb.WriteString(" :pattern (" + p.print(pt) + ")")
+			}
 		}
 		if len(pats) > 0 {
 			sb.WriteString(")")
@@ -470,7 +481,7 @@ func (e *Engine) solveOne(ob *Obligation, dir string, timeout time.Duration) {
 	ctx := context.Background()
 	// cover queries: a quick satisfiability probe
 	if ob.Cover {
-		st, out, d := runSolver(ctx, solvers[0], ob.SMT, minDur(timeout, 5*time.Second))
+		st, out, d := runSolver(ctx, solvers[0], ob.SMT, minDur(timeout, 1500*time.Millisecond))
 		ob.Status, ob.Output, ob.Time, ob.Solver = st, out, d, solvers[0].name
 		return
 	}
